@@ -30,6 +30,10 @@ struct verif_in {
 	int write_ret[NF];
 	int used_parity, valid_parity;
 	int recov_ok[LEV_MAX], has_parity[LEV_MAX], excluded[LEV_MAX], pwrite_ret[LEV_MAX];
+	/* repair outcome region */
+	int repair_ret;
+	unsigned char computed[LEV_MAX * BS], ondisk[LEV_MAX * BS];
+	unsigned cnt_error, cnt_unrec;
 };
 VERIF_DECLARE_IN
 
@@ -188,6 +192,102 @@ void h_writeback(void)
 			if (selected && IN.outofdate[j] && !IN.write_ret[j])
 				VERIF_ASSERT(FIL[j]->flag & FILE_IS_DAMAGED, "a file that received a reconstruction that may be out of date is marked damaged (it will be renamed .unrecoverable)");
 		}
+	VERIF_CANARY();
+}
+
+
+/*
+ * The outcome of repair() for one stripe (state_check_process, region "try all the recovering strategies" up to "now write
+ * recovered files"): a stripe that could not be repaired counts as unrecoverable and EVERY bad entry marks its file DAMAGED
+ * (file_post renames it); after a successful repair the entries whose reconstruction may be out of date still count as
+ * unrecoverable; the parity read is then compared with the recomputed one for every level - only when the stripe has used and
+ * fully valid parity - and a level that differs is counted and dropped (so that fix rewrites it).
+ */
+static int g_repair_calls;
+static int o_repair(struct snapraid_state *state, int rehash, unsigned pos, unsigned diskmax, struct failed_struct *failed, unsigned *failed_map, unsigned failed_count, void **buffer, void **buffer_recov, void *buffer_zero)
+{
+	(void)state; (void)rehash; (void)pos; (void)diskmax; (void)failed; (void)failed_map; (void)failed_count; (void)buffer; (void)buffer_recov; (void)buffer_zero;
+	++g_repair_calls;
+	return IN.repair_ret;
+}
+static unsigned o_memdiff(const unsigned char *a, const unsigned char *b, size_t n) { (void)a; (void)b; (void)n; return 1; }
+#define repair o_repair
+#define memdiff o_memdiff
+#define esc_tag w_esc
+#define lev_config_name w_lev
+#include "region_repair_outcome.c"
+#undef repair
+#undef memdiff
+#undef esc_tag
+#undef lev_config_name
+
+void h_repair_outcome(void)
+{
+	static struct snapraid_state ST;
+	static struct failed_struct FAILED[NF];
+	unsigned failed_map[NF];
+	void *buffer[4 + LEV_MAX];
+	void *buffer_recov[LEV_MAX];
+	unsigned j, l, k, error, unrec, nbad = 0, nood = 0, mism = 0;
+	VERIF_INPUTS();
+	VERIF_ASSUME(IN.failed_count <= NF && IN.level >= 1 && IN.level <= LEV_MAX);
+	VERIF_ASSUME(IN.repair_ret >= -1 && IN.repair_ret <= 20 && IN.cnt_error < 100000 && IN.cnt_unrec < 100000);
+	ST.level = IN.level;
+	ST.block_size = BS;
+	for (j = 0; j < 4 + LEV_MAX; ++j)
+		buffer[j] = BUF[j];
+	for (j = 0; j < NF; ++j) {
+		FIL[j]->flag = 0;
+		FIL[j]->sub = "f";
+		FAILED[j].is_bad = IN.is_bad[j] != 0;
+		FAILED[j].is_outofdate = IN.outofdate[j] != 0;
+		FAILED[j].index = j;
+		FAILED[j].file = FIL[j];
+		FAILED[j].file_pos = 0;
+		FAILED[j].handle = HND[j];
+		FAILED[j].disk = &DK;
+		if (j < IN.failed_count && IN.is_bad[j]) {
+			++nbad;
+			if (IN.outofdate[j])
+				++nood;
+		}
+	}
+	for (l = 0; l < LEV_MAX; ++l) {
+		int differs = 0;
+		buffer_recov[l] = (l < IN.level && IN.recov_ok[l]) ? (void *)REC[l] : (void *)0;
+		for (k = 0; k < BS; ++k) {
+			REC[l][k] = IN.ondisk[l * BS + k];
+			BUF[4 + l][k] = IN.computed[l * BS + k];
+			if (IN.ondisk[l * BS + k] != IN.computed[l * BS + k])
+				differs = 1;
+		}
+		if (l < IN.level && IN.recov_ok[l] && differs)
+			++mism;
+	}
+	error = IN.cnt_error; unrec = IN.cnt_unrec;
+	g_repair_calls = 0;
+	region_repair_outcome(&ST, 0, 7, 4, FAILED, failed_map, IN.failed_count, buffer, buffer_recov, 0, IN.used_parity, IN.valid_parity, &error, &unrec);
+
+	VERIF_ASSERT(g_repair_calls == 1, "one repair attempt per stripe");
+	if (IN.repair_ret != 0) {
+		VERIF_ASSERT(unrec == IN.cnt_unrec + 1 && error == IN.cnt_error + (IN.repair_ret > 0 ? (unsigned)IN.repair_ret : 0), "a stripe that could not be repaired is counted as unrecoverable");
+		for (j = 0; j < NF; ++j)
+			if (j < IN.failed_count)
+				VERIF_ASSERT(((FIL[j]->flag & FILE_IS_DAMAGED) != 0) == (IN.is_bad[j] != 0), "and exactly the files of its bad blocks are marked damaged");
+		for (l = 0; l < LEV_MAX; ++l)
+			VERIF_ASSERT((buffer_recov[l] != 0) == (l < IN.level && IN.recov_ok[l]), "no parity is judged on a stripe that was not repaired");
+	} else {
+		int cmp = IN.used_parity && IN.valid_parity;
+		VERIF_ASSERT(unrec == IN.cnt_unrec + (nood ? 1 : 0), "a repaired stripe whose reconstruction may be out of date still counts as unrecoverable");
+		VERIF_ASSERT(error == IN.cnt_error + nood + (cmp ? mism : 0), "every parity level read that differs from the recomputed one is counted, on stripes with used and valid parity only");
+		for (l = 0; l < LEV_MAX; ++l) {
+			int differs = 0;
+			for (k = 0; k < BS; ++k)
+				if (IN.ondisk[l * BS + k] != IN.computed[l * BS + k])
+					differs = 1;
+			VERIF_ASSERT((buffer_recov[l] != 0) == (l < IN.level && IN.recov_ok[l] && !(cmp && differs)), "a parity level found wrong is dropped so that fix rewrites it; a correct one is kept");
+		}
+	}
 	VERIF_CANARY();
 }
 
